@@ -1616,3 +1616,157 @@ Proof.
     rewrite P2, HP. destruct (0 <=? z)%Z eqn:Sg; lia.
 Qed.
 
+
+(* the raw value an attribute carries once written (placeholders: 0, patched later) *)
+Definition av_raw (cx : wcx) (v : aval) : rval :=
+  let e := wc_enc cx in
+  let off (l : list N) (i : nat) := match nth_error l i with Some o => RU (o mod 2 ^ 64) | None => RNone end in
+  match v with
+  | AvAddress (AConst x) => RU (x mod 2 ^ 64)
+  | AvAddress (ASym _ _) => RNone
+  | AvBlock bs => RB bs
+  | AvData1 x => RU (x mod 256 ^ 1) | AvData2 x => RU (x mod 256 ^ 2) | AvData4 x => RU (x mod 256 ^ 4)
+  | AvData8 x => RU (x mod 256 ^ 8) | AvData16 x => RU (x mod 256 ^ 16)
+  | AvSdata z | AvImplicitConst z => RS z
+  | AvUdata x => RU x
+  | AvExprloc x => match x_out x with Ok b => RB b | _ => RNone end
+  | AvFlag b => RU (if b then 1 else 0)
+  | AvFlagPresent => if 4 <=? e_ver e then RNone else RU 1
+  | AvUnitRef _ | AvDebugInfoRef _ => RU 0
+  | AvDebugInfoRefSup x | AvDebugMacinfoRef x | AvDebugMacroRef x | AvDebugStrRefSup x => RU (x mod 2 ^ 64)
+  | AvLineProgramRef => match wc_line cx with Some o => RU (o mod 2 ^ 64) | None => RNone end
+  | AvLocationListRef i => off (wc_loc cx) i
+  | AvRangeListRef i => off (wc_rng cx) i
+  | AvStringRef i => off (wc_str cx) i
+  | AvLineStringRef i => off (wc_lstr cx) i
+  | AvDebugTypesRef x => RU (x mod 256 ^ 8)
+  | AvString bs => RB bs
+  | AvEncoding x | AvDecimalSign x | AvEndianity x | AvAccessibility x | AvVisibility x | AvVirtuality x
+  | AvLanguage x | AvAddressClass x | AvIdentifierCase x | AvCallingConvention x | AvInline x | AvOrdering x => RU x
+  | AvFileIndex None => RU 0
+  | AvFileIndex (Some i) => RU (if e_ver e <=? 4 then wrapN 64 (i + 1) else i)
+  end.
+
+(* documented precondition of AttributeValue::String ("must not include null bytes"); expressions: the
+   length prefix is the number of bytes written *)
+Definition av_decodable (v : aval) : Prop :=
+  match v with
+  | AvString bs => has_nul bs = false
+  | AvExprloc x => forall bs, x_out x = Ok bs -> x_size x = Ok (UnitWr.blen bs)
+  | _ => True
+  end.
+
+Lemma dec_zero_word sz be rest : valid_size sz = true ->
+  dec_fixed sz be (zeros sz ++ rest) = Some (RU 0, rest).
+Proof.
+  intros V. unfold valid_size in V.
+  assert (C : sz = 1 \/ sz = 2 \/ sz = 4 \/ sz = 8).
+  { repeat rewrite orb_true_iff in V. repeat rewrite N.eqb_eq in V. tauto. }
+  destruct C as [-> | [-> | [-> | ->]]]; destruct be; reflexivity.
+Qed.
+
+Lemma file_raw_val dbg e i r :
+  file_raw dbg e (Some i) = Ok r -> r = (if e_ver e <=? 4 then wrapN 64 (i + 1) else i).
+Proof.
+  unfold file_raw. destruct (e_ver e <=? 4); [|now intros H; injection H].
+  unfold chk_add, wrapN. destruct (i + 1 <? 2 ^ 64) eqn:L.
+  - intros H. injection H as <-. apply N.ltb_lt in L. now rewrite N.mod_small.
+  - destruct dbg; [discriminate|]. now intros H; injection H.
+Qed.
+
+Lemma take_n_blen (h rest : list byte) : take_n (N.to_nat (UnitWr.blen h)) (h ++ rest) = Some (h, rest).
+Proof. unfold UnitWr.blen. rewrite Nat2N.id. apply take_n_app. Qed.
+
+(* form_decode on each form the writer uses *)
+Lemma fd_addr e be ic bs : form_decode e be DW_FORM_addr ic bs = dec_fixed (e_asz e) be bs. Proof. reflexivity. Qed.
+Lemma fd_block e be ic bs : form_decode e be DW_FORM_block ic bs =
+  match dec_uleb bs with Some (len, r) => match take_n (N.to_nat len) r with Some (h, t) => Some (RB h, t) | None => None end | None => None end.
+Proof. reflexivity. Qed.
+Lemma fd_exprloc e be ic bs : form_decode e be DW_FORM_exprloc ic bs =
+  match dec_uleb bs with Some (len, r) => match take_n (N.to_nat len) r with Some (h, t) => Some (RB h, t) | None => None end | None => None end.
+Proof. reflexivity. Qed.
+Lemma fd_data1 e be ic bs : form_decode e be DW_FORM_data1 ic bs = dec_fixed 1 be bs. Proof. reflexivity. Qed.
+Lemma fd_flag e be ic bs : form_decode e be DW_FORM_flag ic bs = dec_fixed 1 be bs. Proof. reflexivity. Qed.
+Lemma fd_data2 e be ic bs : form_decode e be DW_FORM_data2 ic bs = dec_fixed 2 be bs. Proof. reflexivity. Qed.
+Lemma fd_data4 e be ic bs : form_decode e be DW_FORM_data4 ic bs = dec_fixed 4 be bs. Proof. reflexivity. Qed.
+Lemma fd_ref4 e be ic bs : form_decode e be DW_FORM_ref4 ic bs = dec_fixed 4 be bs. Proof. reflexivity. Qed.
+Lemma fd_ref_sup4 e be ic bs : form_decode e be DW_FORM_ref_sup4 ic bs = dec_fixed 4 be bs. Proof. reflexivity. Qed.
+Lemma fd_data8 e be ic bs : form_decode e be DW_FORM_data8 ic bs = dec_fixed 8 be bs. Proof. reflexivity. Qed.
+Lemma fd_ref8 e be ic bs : form_decode e be DW_FORM_ref8 ic bs = dec_fixed 8 be bs. Proof. reflexivity. Qed.
+Lemma fd_ref_sup8 e be ic bs : form_decode e be DW_FORM_ref_sup8 ic bs = dec_fixed 8 be bs. Proof. reflexivity. Qed.
+Lemma fd_ref_sig8 e be ic bs : form_decode e be DW_FORM_ref_sig8 ic bs = dec_fixed 8 be bs. Proof. reflexivity. Qed.
+Lemma fd_data16 e be ic bs : form_decode e be DW_FORM_data16 ic bs = dec_fixed 16 be bs. Proof. reflexivity. Qed.
+Lemma fd_sdata e be ic bs : form_decode e be DW_FORM_sdata ic bs =
+  match dec_sleb bs with Some (z, r) => Some (RS z, r) | None => None end. Proof. reflexivity. Qed.
+Lemma fd_udata e be ic bs : form_decode e be DW_FORM_udata ic bs =
+  match dec_uleb bs with Some (n, r) => Some (RU n, r) | None => None end. Proof. reflexivity. Qed.
+Lemma fd_flag_present e be ic bs : form_decode e be DW_FORM_flag_present ic bs = Some (RNone, bs). Proof. reflexivity. Qed.
+Lemma fd_implicit_const e be ic bs : form_decode e be DW_FORM_implicit_const ic bs = Some (RS ic, bs). Proof. reflexivity. Qed.
+Lemma fd_string e be ic bs : form_decode e be DW_FORM_string ic bs =
+  match dec_cstr bs with Some (s, r) => Some (RB s, r) | None => None end. Proof. reflexivity. Qed.
+Lemma fd_strp e be ic bs : form_decode e be DW_FORM_strp ic bs = dec_fixed (wsz e) be bs. Proof. reflexivity. Qed.
+Lemma fd_line_strp e be ic bs : form_decode e be DW_FORM_line_strp ic bs = dec_fixed (wsz e) be bs. Proof. reflexivity. Qed.
+Lemma fd_strp_sup e be ic bs : form_decode e be DW_FORM_strp_sup ic bs = dec_fixed (wsz e) be bs. Proof. reflexivity. Qed.
+Lemma fd_sec_offset e be ic bs : form_decode e be DW_FORM_sec_offset ic bs = dec_fixed (wsz e) be bs. Proof. reflexivity. Qed.
+Lemma fd_ref_addr e be ic bs : form_decode e be DW_FORM_ref_addr ic bs =
+  dec_fixed (if e_ver e =? 2 then e_asz e else wsz e) be bs. Proof. reflexivity. Qed.
+
+Ltac rewrite_fd :=
+  first [ rewrite fd_addr | rewrite fd_block | rewrite fd_exprloc | rewrite fd_data1 | rewrite fd_flag
+        | rewrite fd_data2 | rewrite fd_data4 | rewrite fd_ref4 | rewrite fd_ref_sup4 | rewrite fd_data8
+        | rewrite fd_ref8 | rewrite fd_ref_sup8 | rewrite fd_ref_sig8 | rewrite fd_data16 | rewrite fd_sdata
+        | rewrite fd_udata | rewrite fd_flag_present | rewrite fd_implicit_const | rewrite fd_string
+        | rewrite fd_strp | rewrite fd_line_strp | rewrite fd_strp_sup | rewrite fd_sec_offset | rewrite fd_ref_addr ].
+
+Theorem av_write_decodes dbg cx v ops rest :
+  av_write dbg cx v = Ok ops -> av_decodable v ->
+  form_decode (wc_enc cx) (wc_be cx) (fst (av_form (wc_enc cx) v))
+              (match snd (av_form (wc_enc cx) v) with Some z => z | None => 0%Z end)
+              (ops_bytes ops ++ rest) = Some (av_raw cx v, rest).
+Proof.
+  destruct cx as [e be u uoff ents codes line lstr str rng loc].
+  destruct e as [ver fmt asz].
+  intros H X.
+  destruct v; unfold av_write in H; cbn [wc_enc wc_be wc_line wc_loc wc_rng wc_str wc_lstr] in *;
+    unfold av_raw; cbn [wc_enc wc_be wc_line wc_loc wc_rng wc_str wc_lstr];
+    revert H; unfold_asserts; case_ver ver; destruct fmt; asserts; intros H.
+  all: try (exfalso; lia).
+  all: cbn [snd].
+  all: try match goal with H : match ?a with AConst _ => _ | ASym _ _ => _ end = _ |- _ => destruct a; [|discriminate] end.
+  all: try match goal with H : match ?l with Some _ => _ | None => _ end = Ok _ |- _ => destruct l; [|discriminate] end.
+  all: try match goal with H : match ?r with DSym _ => _ | DEntry _ _ => _ end = _ |- _ => destruct r; [discriminate|] end.
+  all: try match goal with H : (if valid_size ?s then _ else _) = _ |- _ => destruct (valid_size s) eqn:?; [|discriminate] end.
+  all: binds.
+  all: try match goal with H : Ok _ = Ok _ |- _ => injection H as <- end.
+  all: unfold ops_bytes; cbn [flat_map op_bytes]; rewrite ?app_nil_r; rewrite <- ?app_assoc.
+  all: rewrite_fd; cbn [e_ver e_fmt64 e_asz]; unfold wsz; cbn [e_fmt64].
+  all: try reflexivity.
+  all: try match goal with E : write_udata _ _ _ = Ok ?a |- dec_fixed _ _ (?a ++ ?r) = _ =>
+         rewrite (write_udata_dec _ _ _ _ r E); reflexivity end.
+  all: try (exact (dec_fixed_enc_un 1 be v rest)).
+  all: try (exact (dec_fixed_enc_un 2 be v rest)).
+  all: try (exact (dec_fixed_enc_un 4 be v rest)).
+  all: try (exact (dec_fixed_enc_un 8 be v rest)).
+  all: try (exact (dec_fixed_enc_un 16 be v rest)).
+  all: try match goal with E : write_sleb128 _ = Ok ?a |- context [dec_sleb (?a ++ ?r)] =>
+         rewrite (write_sleb128_dec _ _ r E); reflexivity end.
+  all: try match goal with E : write_uleb128 _ = Ok ?a |- context [dec_uleb (?a ++ ?r)] =>
+         rewrite (write_uleb128_dec _ _ r E); try reflexivity end.
+  all: try (destruct b; destruct be; reflexivity).
+  all: try (apply dec_zero_word; reflexivity).
+  all: try (apply dec_zero_word; assumption).
+  all: try (rewrite take_n_blen; reflexivity).
+  all: try (destruct be; reflexivity).
+  all: try match goal with
+       | E : idx_get ?l ?i = Ok ?o, E0 : write_udata _ ?o _ = Ok ?b |- dec_fixed _ _ (?b ++ ?r) = _ =>
+           unfold idx_get, unwrap in E; destruct (nth_error l i); [|discriminate]; injection E as ->;
+           rewrite (write_udata_dec _ _ _ _ r E0); reflexivity
+       end.
+  all: try match goal with
+       | E1 : x_out ?x = Ok ?b, E2 : x_size ?x = Ok ?n |- _ =>
+           cbn [av_decodable] in X; rewrite (X _ E1) in E2; injection E2 as <-; rewrite E1;
+           rewrite take_n_blen; reflexivity
+       end.
+  all: try (cbn [app]; rewrite dec_cstr_app by exact X; reflexivity).
+  all: destruct f as [i|]; [apply file_raw_val in E; cbn [e_ver] in E; now subst a|cbn in E; now injection E as <-].
+Qed.
